@@ -1,8 +1,119 @@
-(* C03 - Encoding any JSON-shaped Map or value as XML preserves all of its data.  Statements only. *)
-From Mxj Require Import Spec.Img.
+(* C03 - Encoding any JSON-shaped Map or value as XML preserves all of its data.
+   Statements only; proofs in Proofs/XmlStr.v XmlItems.v XmlRT.v XmlWF.v XmlImgG.v C03P.v C03Q.v.
 
+   Reading.  [map_xml_items / map_xml_indent_items / any_xml_items] (Model/XmlEnc.v) are the
+   items Map.Xml / Map.XmlIndent / AnyXml(Indent) write; [toks_of_items] (Spec/Items.v) is what
+   encoding/xml's tokenizer returns on them; [insert_ws ws] puts arbitrary whitespace [ws i]
+   in every gap between items (every blank indentation at once; [no_ws] is the compact form);
+   [xml_decode] (Model/XmlDec.v) is NewMapXml without cast; [img] (Spec/Img.v) is the Map the
+   statement says must come back.  [opts03 o]: the decoder's default conventions with a free
+   attribute prefix / key prefix / empty-element syntax / keep-spaces / XMLEscapeChars;
+   [dom03 o v]: JSON-shaped, distinct keys, keys valid XML names, attribute entries non-nil
+   scalars, text entry scalar, strings free of the five specials unless XMLEscapeChars is on.
+   The entry order of the Maps in [img] is one representative (Go Maps have none). *)
+From Mxj Require Import Spec.Img Proofs.XmlRT Proofs.C03P Proofs.C03Q.
+
+(* ---- the encoders: well-formed, one root, decodes to img, under any indentation ---- *)
+Theorem encode_img_xml : forall pf o, opts03 o -> forall m, root_ok o m = true ->
+  exists its, map_xml_items o m None = Ok its /\
+    wf_items its /\ single_root its /\
+    forall ws, ws_ok o ws ->
+      xml_decode pf nskip o false (toks_of_items (insert_ws ws its)) TermEOF = Ok (img_map o m).
+Proof. exact encode_img_xml. Qed.
+Print Assumptions encode_img_xml.
+
+Theorem encode_img_xml_indent : forall pf o, opts03 o -> forall m, root_ok o m = true ->
+  exists its, map_xml_indent_items o m None = Ok its /\
+    wf_items its /\ single_root its /\
+    forall ws, ws_ok o ws ->
+      xml_decode pf nskip o false (toks_of_items (insert_ws ws its)) TermEOF = Ok (img_map o m).
+Proof. exact encode_img_xml_indent. Qed.
+Print Assumptions encode_img_xml_indent.
+
+Theorem encode_img_any : forall pf o, opts03 o -> forall v rt et, any_ok o v rt et = true ->
+  exists its, any_xml_items o v rt et = Ok its /\
+    wf_items its /\ single_root its /\
+    forall ws, ws_ok o ws ->
+      xml_decode pf nskip o false (toks_of_items (insert_ws ws its)) TermEOF = Ok (img_any o v rt et).
+Proof. exact encode_img_any. Qed.
+Print Assumptions encode_img_any.
+
+(* ---- the clauses of the statement, about img itself ---- *)
 (* null, empty string, empty list and empty map all become an empty element *)
 Theorem img_empty_cases : forall o,
   img o VNil = VStr [] /\ img o (VStr []) = VStr [] /\ img o (VList []) = VStr [] /\ img o (VMap []) = VStr [].
 Proof. intro o. repeat split; reflexivity. Qed.
 Print Assumptions img_empty_cases.
+
+(* every scalar is rendered as its text *)
+Theorem img_scalar : forall o v, is_scalar v = true -> img o v = VStr (trimv o (scalar_txt v)).
+Proof. exact img_scalar. Qed.
+Print Assumptions img_scalar.
+
+(* every list as repeated elements in list order (one member: the member itself) *)
+Theorem img_list_order : forall o x y l,
+  is_list x = false -> is_list y = false -> Forall (fun z => is_list z = false) l ->
+  img o (VList (x :: y :: l)) = VList (img o x :: img o y :: map (img o) l) /\ img o (VList [x]) = img o x.
+Proof. intros o x y l Hx Hy Hl. split; [apply img_list_many; assumption | apply img_list_one; assumption]. Qed.
+Print Assumptions img_list_order.
+
+(* a list directly inside a list is flattened, in order *)
+Theorem img_list_flat : forall o l, l <> [] -> imgs o (VList l) = flat_map (imgs o) l.
+Proof. exact img_list_flat. Qed.
+Print Assumptions img_list_flat.
+
+(* same keys, same parent: every child entry of a map is an entry of the map's image under its key *)
+Theorem img_keys_preserved : forall o vv k v, In (k, v) vv -> is_elem_key o k = true ->
+  exists es, img o (VMap vv) = VMap es /\ In (k, img o v) es.
+Proof. exact img_keys_preserved. Qed.
+Print Assumptions img_keys_preserved.
+
+(* '-'-prefixed scalar entries come back as attributes: same key, the scalar's text untrimmed *)
+Theorem img_attrs_preserved : forall o vv k v, In (k, v) vv -> is_attr_key o k = true ->
+  exists es, img o (VMap vv) = VMap es /\ In (k, VStr (scalar_txt v)) es.
+Proof. exact img_attrs_preserved. Qed.
+Print Assumptions img_attrs_preserved.
+
+(* the text key is the element content: an entry of the image, or the whole image when alone *)
+Theorem img_text_entry : forall o vv tv, lookup (textK o) vv = Some tv -> trimv o (scalar_txt tv) <> [] ->
+  (A_of o vv = [] /\ C_of o vv = [] /\ img o (VMap vv) = VStr (trimv o (scalar_txt tv))) \/
+  exists es, img o (VMap vv) = VMap es /\ In (textK o, VStr (trimv o (scalar_txt tv))) es.
+Proof. exact img_text_entry. Qed.
+Print Assumptions img_text_entry.
+
+(* a non-scalar (or nil) attribute value is the documented error, not silent loss *)
+Theorem attr_nonscalar_err : forall o vv k v key,
+  In (k, v) vv -> is_attr_key o k = true -> attr_text o v = None -> enc o (VMap vv) key = Err EOther.
+Proof. exact attr_nonscalar_err. Qed.
+Print Assumptions attr_nonscalar_err.
+
+(* ---- non-vacuity ---- *)
+Example opts0_03 : opts03 opts0.
+Proof. constructor; try reflexivity. discriminate. Qed.
+Example opts0e_03 : opts03 opts0e.
+Proof. constructor; try reflexivity. discriminate. Qed.
+
+Definition ex_m : entries :=
+  [(s "a", VMap [(s "-x", VStr (s " <1> ")); (s "#text", VStr (s " t&t "));
+                 (s "b", VList [VInt 1; VList []; VStr (s "x"); VList [VNil; VList [VBool true]]]);
+                 (s "c", VMap [(s "d", VNil)]); (s "-n", VFlt (s "2.5")); (s "e", VList [VStr (s "one")]);
+                 (s "h", VMap [])])].
+Example ex_m_dom : root_ok opts0e ex_m = true.
+Proof. reflexivity. Qed.
+Example ex_m_img : img_map opts0e ex_m =
+  VMap [(s "a", VMap [(s "-n", VStr (s "2.5")); (s "-x", VStr (s " <1> ")); (s "#text", VStr (s "t&t"));
+                      (s "b", VList [VStr (s "1"); VStr []; VStr (s "x"); VStr []; VStr (s "true")]);
+                      (s "c", VMap [(s "d", VStr [])]); (s "e", VStr (s "one")); (s "h", VStr [])])].
+Proof. reflexivity. Qed.
+Example ex_multi_dom : root_ok opts0 [(s "a", VInt 1); (s "b", VList [VMap [(s "k", VNil)]; VStr (s "z")])] = true.
+Proof. reflexivity. Qed.
+Example ex_any_dom :
+  any_ok opts0 (VList [VMap [(s "a", VInt 1)]; VInt 5; VMap [(s "a", VInt 2); (s "b", VInt 3)]; VList [VInt 1; VInt 2]])
+         (s "doc") (s "element") = true.
+Proof. reflexivity. Qed.
+Example ex_any_img :
+  img_any opts0 (VList [VMap [(s "a", VInt 1)]; VInt 5; VMap [(s "a", VInt 2)]]) (s "doc") (s "element") =
+  VMap [(s "doc", VMap [(s "a", VList [VStr (s "1"); VStr (s "2")]); (s "element", VStr (s "5"))])].
+Proof. reflexivity. Qed.
+Example ex_attr_err : enc opts0 (VMap [(s "-x", VMap [])]) (s "a") = Err EOther.
+Proof. reflexivity. Qed.
